@@ -2,6 +2,7 @@
   Inversion lemmas for the parser model: what an accepted request guarantees.
 -/
 import Sidetree.Parser
+import Sidetree.Lemmas.Base64
 
 namespace Sidetree.Parser
 open Sidetree
@@ -88,7 +89,7 @@ theorem signingKeyOK_inv (cfg : Protocol) (key : Option Jwk) (h : signingKeyOK c
     simp only [signingKeyOK, Bool.and_eq_true, List.contains_iff_mem] at h
     exact ⟨k, rfl, h.1.1, h.1.2, h.2⟩
 
-/-- a nonce, when present, decodes to exactly the configured number of bytes -/
+/-- a nonce, when present, is the canonical text of exactly the configured number of bytes -/
 theorem nonceOK_inv (cfg : Protocol) (n : String) (h : nonceOK cfg n = true) :
     n = "" ∨ ∃ bs, b64DecodeStr n = some bs ∧ bs.length = cfg.nonceSize := by
   unfold nonceOK at h
@@ -96,9 +97,9 @@ theorem nonceOK_inv (cfg : Protocol) (n : String) (h : nonceOK cfg n = true) :
   · left; exact hn
   · right
     simp only [hn, decide_false, Bool.false_or] at h
-    cases hd : b64DecodeStr n with
+    cases hd : b64DecodeStrictStr n with
     | none => simp [hd] at h
-    | some bs => exact ⟨bs, rfl, by simpa [hd] using h⟩
+    | some bs => exact ⟨bs, (b64_decode_strict_inv n bs hd).1, by simpa [hd] using h⟩
 
 theorem parseUpdate_inv (H : HashFam) (cfg : Protocol) (orc : Oracles) (req : Json) (batch : Bool) (p : ParsedOp)
     (h : parseUpdate H cfg orc req batch = some p) :
